@@ -19,6 +19,12 @@ FIRST_ARGS = [  # (source, is plain str literal, executable literal or None, com
     ("'./run.sh'", True, "./run.sh", "./run.sh"), ("'C:\\\\tool.exe'", True, "C:\\tool.exe", None), ("'tar cf a.tar *'", True, "tar cf a.tar *", "tar cf a.tar *"),
     ("['chown', 'root', '*']", False, "chown", " chown root *"), ("'/bin/chmod 777 *.py'", True, "/bin/chmod 777 *.py", "/bin/chmod 777 *.py"),
     ("[]", False, None, ""), ("[cmd, '*']", False, None, None),
+    # the risky program need not be the first word of a command line given to a shell (seeded change C14-m10 looked at the first word only)
+    ("'cd /srv/www && tar czf /tmp/site.tgz *'", True, "cd /srv/www && tar czf /tmp/site.tgz *", "cd /srv/www && tar czf /tmp/site.tgz *"),
+    ("'sudo chown www-data: *'", True, "sudo chown www-data: *", "sudo chown www-data: *"),
+    ("'nice -n 19 rsync -a * backup:/srv/'", True, "nice -n 19 rsync -a * backup:/srv/", "nice -n 19 rsync -a * backup:/srv/"),
+    ("'umask 022; /bin/chmod 644 *'", True, "umask 022; /bin/chmod 644 *", "umask 022; /bin/chmod 644 *"),
+    ("['sh', '-c', 'tar xf a.tar *']", False, "sh", " sh -c tar xf a.tar *"),
     ("['chown', '-R', owner.name, '*']", False, "chown", " chown -R name *"), ("['tar', archive_name(), '*']", False, "tar", " tar None *"),
     ("['/bin/chmod', 644, '*']", False, "/bin/chmod", " /bin/chmod 644 *"), ("['rsync', targets[0], '*', None]", False, "rsync", " rsync None * None"), ("'rsync -a src dst'", True, "rsync -a src dst", "rsync -a src dst"), ("b'ls'", False, None, None),
 ]
